@@ -134,8 +134,8 @@ Definition c18_ok_roundtrip (cs : list chunk) (back : reread) (conv_err read_err
    zrows_eqb (flat_map snd back) (int_rows cs)).
 
 (* classes in which the unchanged code is known not to meet the wording (see the
-   report / KNOWN_FINDINGS): a chunk without metrics directly followed by a chunk
-   with metrics; a lone empty key; a key containing CR LF.  The driver accepts a
+   KNOWN_FINDINGS; both are behaviour of encoding/csv): a lone empty key; a key
+   containing CR LF.  The driver accepts a
    failing oracle as "known" only inside such a class AND when the implementation
    did exactly what the model predicts *)
 Fixpoint has_crlf (l : bytes) : bool :=
@@ -148,12 +148,6 @@ Fixpoint has_crlf (l : bytes) : bool :=
 Definition record_ok (r : list bytes) : bool :=
   negb (invisible r) && forallb (fun f => negb (has_crlf f)) r.
 
-Fixpoint class_zero_metric (cs : list chunk) : bool :=
-  match cs with
-  | c1 :: ((c2 :: _) as r) =>
-      (Nat.eqb (nmetrics c1) 0 && negb (Nat.eqb (nmetrics c2) 0)) || class_zero_metric r
-  | _ => false
-  end.
 Definition class_lone_empty_key (cs : list chunk) : bool :=
   existsb (fun c => match field_names c with [[]] => true | _ => false end) cs.
 Definition class_key_crlf (cs : list chunk) : bool :=
